@@ -77,10 +77,21 @@ def intersection_rebuild(facts):
         moved, loops = [], []
         walk(fn["body"], lambda x: moved.append(x) if x.get("k") == "Call" and x.get("cname") == "push_back" and "move(" in txt(x) else None)
 
+        # the vector that receives the moved entries, and the counters stepped where they are moved (whatever they are called)
+        vec = set(strip_all(m.get("obj") or {}).get("d") for m in moved) - {None}
+        counters = set()
+
+        def cv(x):
+            if x.get("k") == "Block" and any(any(y is m for y in _all(st)) for st in stmts_of(x) for m in moved if st.get("k") == "Expr"):
+                for st in stmts_of(x):
+                    e = strip(st.get("e")) if st.get("k") == "Expr" else None
+                    if isinstance(e, dict) and e.get("k") == "Un" and e.get("op") == "++" and strip(e.get("e")).get("k") == "Ref":
+                        counters.add(strip(e["e"]).get("n"))
+        walk(fn["body"], cv)
+
         def lv(x):
             if x.get("k") in ("For", "RangeFor", "While") and any(y.get("k") == "Call" and y.get("cname") == "insert" for y in _all(x.get("b"))):
-                t = txt(x.get("c")) if x.get("c") is not None else txt(x.get("range"))
-                if "match" in t or "matched" in t:
+                if any(y.get("k") == "Ref" and y.get("d") in vec for y in _all(x)):
                     loops.append(x)
         walk(fn["body"], lv)
         key = "theta_intersection_base::update:rebuild-after-match"
@@ -99,7 +110,10 @@ def intersection_rebuild(facts):
         walk(fn["body"], find_outer)
         base = set(C(txt(l)) for l, o in reach_tagged(fn["body"], mv_loop or moved[0]) if o != "loop")
         extra = [C(txt(l)) for l, o in reach_tagged(fn["body"], loops[0]) if o not in ("loop", "after-throw") and C(txt(l)) not in base]
-        extra = [t for t in extra if t not in (C("(match_count!=0)"), C("(0!=match_count)"), C("(match_count>0)"))]
+        allowed = set()
+        for cn in counters:
+            allowed |= {C("(%s!=0)" % cn), C("(0!=%s)" % cn), C("(%s>0)" % cn), C("(0<%s)" % cn)}
+        extra = [t for t in extra if t not in allowed]
         if not extra:
             out.append(ob("tuple.rebuild", key, loops[0]["loc"], "discharged", "whenever any entry matched, all match_count matched entries are re-inserted", fn["qname"]))
         else:
